@@ -228,6 +228,9 @@ func orchMain() int {
 			tot.Probes[k] += wo.Probes[k]
 		}
 		tot.Samples = append(tot.Samples, wo.Samples...)
+		for k := range wo.Viol {
+			wo.Viol[k].Worker = i
+		}
 		viols = append(viols, wo.Viol...)
 		harness = append(harness, wo.Harness...)
 	}
@@ -260,6 +263,7 @@ func orchMain() int {
 		}
 	}
 	var unstable []string
+	histTries := 0
 	for _, v := range viols {
 		if seen[v.Sig] {
 			continue
@@ -280,6 +284,20 @@ func orchMain() int {
 			for attempt := 0; attempt < 2 && !ok; attempt++ {
 				sig2, herr := replayOnce(path, scratch)
 				last = fmt.Sprintf("%q (harness: %s)", sig2, herr)
+				ok = herr == "" && sig2 == v.Sig
+			}
+			if !ok && v.History == nil && histTries < 3 && strings.HasPrefix(last, `"" (harness: )`) {
+				// alone, in a fresh process, the run passes. Does it fail after the runs its worker
+				// had executed before it? Then the library keeps state process-wide, left behind by
+				// earlier connections, and the replay is the worker's sequence up to this run.
+				histTries++
+				rf.History = &HistSpec{Base: seed, WIdx: v.Worker, WN: nw}
+				rf.Desc.Tape = nil // the run as the worker first executed it
+				rf.Note = fmt.Sprintf("not minimised: the run fails only after the earlier runs of worker %d of %d (base seed %d), which the replay re-executes (state carried from earlier connections in the same process); replay: ./check %s --replay <this file>", v.Worker, nw, seed, prop)
+				js, _ := json.MarshalIndent(rf, "", " ")
+				os.WriteFile(path, js, 0644)
+				sig2, herr := replayOnce(path, scratch)
+				last = fmt.Sprintf("%q (harness: %s) [after the worker's earlier runs]", sig2, herr)
 				ok = herr == "" && sig2 == v.Sig
 			}
 			if !ok {
